@@ -5,8 +5,9 @@
 //!                 driver carries the same structs as `FieldSpec` lists)
 //!               | <struct>~<spec>   a struct of the GENERATED family (c18_family.rs, written by
 //!                 tools/gen_c18_family.py: 66 structs over every per-field combination of kind x
-//!                 default x type x alias, 12 token-attribute structs, 20 attribute-list layout variants); <spec> is its FieldSpec text
-//!                 `name:kind:default:type:alias:token/...`, which the driver reads from the line and
+//!                 default x type x alias, 12 token-attribute structs, 20 attribute-list layout variants, 17 syntax
+//!                 variants: type / attribute spellings, raw identifiers, generics, macro_rules types); <spec> is its FieldSpec text
+//!                 `name:kind:default:type:alias:token:autodefault/...`, which the driver reads from the line and
 //!                 the harness checks against the generated table (no second table to drift)
 //!   <pairs>     = `-` | item (`,` item)*           the ordered (key, value) pairs of the document
 //!   item        = [`#`|`%`] key `=` val            `#` = in the BINARY rendering the key is written
@@ -759,7 +760,7 @@ pub fn exec(w: &[&str], obs: &mut Obs) -> Option<String> {
                 return Some("spec-mismatch".into());
             }
             let (t, b) = run_schema(id, &p, &case, obs)?;
-            let hid = if id.contains('~') { if id.split('/').any(|f| !f.ends_with(":-")) { "family-tok" } else { "family" } } else { *id };
+            let hid = if id.contains('~') { if id.split('/').any(|f| f.split(':').nth(5).map(|t| t != "-").unwrap_or(false)) { "family-tok" } else { "family" } } else { *id };
             obs.count(&format!("{}:T:{}", hid, if t.starts_with("err:") { t.split(':').take(2).collect::<Vec<_>>().join(":") } else { "ok".into() }));
             obs.count(&format!("{}:B:{}", hid, if b.starts_with("err:") { b.split(':').take(2).collect::<Vec<_>>().join(":") } else { "ok".into() }));
             let numeric_key = p.iter().any(|it| it.key.bytes().all(|c| c.is_ascii_digit()));
@@ -1059,14 +1060,17 @@ pub fn gen(g: &mut Gen) {
         let mut total = 0usize;
         for (name, spec) in family::FAMILY {
             let id = format!("{}~{}", name, spec);
-            let fields = family_fields(spec);
+            // a raw identifier (`r#type`) is the key the macro matches on; `#` cannot stand in a text
+            // key, so the un-raw name is offered instead (it must NOT match)
+            let fields: Vec<(String, char, char)> =
+                family_fields(spec).into_iter().map(|f| (f.0.replace("r#", ""), f.1, f.2)).collect();
             let nf = fields.len();
             let mut counter = 1i32;
             let mut value_for = |rng: &mut Rng, f: &(String, char, char)| -> Val {
                 counter += 1;
                 let n = counter;
                 match (f.1, f.2) {
-                    (_, 's') => Val::Q(format!("v{}", n).into_bytes()),
+                    (_, 's') | (_, 'z') => Val::Q(format!("v{}", n).into_bytes()),
                     ('d', 'v') => Val::Arr((0..rng.below(3)).map(|i| Val::Int(n * 10 + i as i32)).collect()),
                     (_, 'v') if f.1 != 'd' => Val::Arr((0..rng.below(3)).map(|i| Val::Int(n * 10 + i as i32)).collect()),
                     _ => Val::Int(n),
@@ -1100,11 +1104,16 @@ pub fn gen(g: &mut Gen) {
                         p.push(Item { as_i32: false, as_id: g.rng.chance(1, 2), key: format!("f{}", i), val });
                     }
                 }
+                // names that only LOOK related: second aliases, serde renames
+                if g.rng.chance(1, 4) {
+                    let k = *g.rng.pick(&["b1", "b3", "zz9", "yy9"]);
+                    p.push(Item { as_i32: false, as_id: false, key: k.to_string(), val: Val::Int(5) });
+                }
                 for i in (1..p.len()).rev() { let j = g.rng.below(i + 1); p.swap(i, j); }
                 let nu = g.rng.below(3);
                 for _ in 0..nu {
                     let pos = g.rng.below(p.len() + 1);
-                    let it = unknown_item(&mut g.rng, !spec.split('/').any(|f| !f.ends_with(":-")), 900 + p.len() as i32);
+                    let it = unknown_item(&mut g.rng, !spec.split('/').any(|f| f.split(':').nth(5).map(|t| t != "-").unwrap_or(false)), 900 + p.len() as i32);
                     p.insert(pos, it);
                 }
                 emit(g, &id, &p);
